@@ -134,6 +134,30 @@ def heapify(x):
         _siftup(x, i)
 
 
+def install_queue(ctx, fn):
+    """priority_dict of the repository (a dict subclass) as an abstract object whose methods are interpreted from the source"""
+    pdq = 'tracklib.core.utils.priority_dict'
+    rm = absint.methods_of(ctx, pdq)
+    fn.update({'heappush': heappush, 'heappop': heappop, 'heapify': heapify})
+
+    class PD(dict, orders.PyStub):
+        isa = ('priority_dict', 'dict')
+        repo_methods = rm
+        repo_funcs = fn
+        __hash__ = None
+
+    def make_pd(*a, **k):
+        o = PD()
+        if '__init__' in rm:
+            orders.Obj.call(orders._Bound(o, rm, fn), '__init__', *a, **k)
+        else:
+            dict.__init__(o, *a, **k)
+        return o
+    fn['priority_dict'] = make_pd
+    fn['__globals__']['priority_dict'] = make_pd
+    return PD
+
+
 class Harness:
     def __init__(self, ctx):
         self.ctx = ctx
@@ -145,25 +169,7 @@ class Harness:
         self.Node = absint.classref(ctx, NET + '.Node', fn)
         self.Edge = absint.classref(ctx, NET + '.Edge', fn)
         self.Network = absint.classref(ctx, NET + '.Network', fn)
-        pdq = 'tracklib.core.utils.priority_dict'
-        rm = absint.methods_of(ctx, pdq)
-
-        class PD(dict, orders.PyStub):
-            isa = ('priority_dict', 'dict')
-            repo_methods = rm
-            repo_funcs = fn
-            __hash__ = None
-
-        def make_pd(*a, **k):
-            o = PD()
-            if '__init__' in rm:
-                orders.Obj.call(orders._Bound(o, rm, fn), '__init__', *a, **k)
-            else:
-                dict.__init__(o, *a, **k)
-            return o
-        fn['priority_dict'] = make_pd
-        fn['__globals__']['priority_dict'] = make_pd
-        self.PD = PD
+        self.PD = install_queue(ctx, fn)
 
     # ---- graphs ---------------------------------------------------------------------------------------------------
     def build(self, nodes, edges, layout=None):
